@@ -32,16 +32,31 @@ def step(entry, quick=None, thorough=None, reach=(), **kw):
     d.update(kw)
     return d
 
+T = "github.com/Flowpack/prunner/taskctl"
+
+L2_ASSUME = [
+    "L2: the real taskctl.Scheduler (Schedule/Cancel/isDone/checkStatus/runStage) and the real upstream ExecutionGraph/Stage run multi-threaded under the engine's scheduler; a context switch is possible before every atomic operation, go statement, channel operation and harness yield (mutex/WaitGroup operations switch only when they block), bounded by the preemption bound",
+    "the task runner is the most general stub satisfying the runner contract G1 (begins, takes time, ends ok / failed / canceled once the cancel was delivered; refuses to run after the cancel)",
+    "time.Sleep in the poll loop: the sleeper continues once anything changed since it last woke (idle-iteration elision); a sleeper that can never be woken is reported as livelock",
+    "graphs: up to `stages` stages, every dependency shape, every allow_failure vector, every outcome vector; modes: undisturbed, external Cancel at any switch point, fail-fast Cancel",
+]
+
+def l2(quick, thorough, qflags, tflags, reach=()):
+    return {"pkg": T, "harness": ["harness/taskctl"], "entry": "VerifL2Schedule", "replay": "l2", "quick": quick, "thorough": thorough,
+            "quick_flags": qflags, "thorough_flags": tflags, "reach": list(reach)}
+
+L2RUN = l2({"stages": 2}, {"stages": 3}, {"preempt": 2}, {"preempt": 1}, reach=["schedule.nil", "schedule.canceled", "run.canceled-in-flight", "run.refused-after-cancel", "run.after-allowed-failure", "dependent-skipped", "end"])
+
 CHECKS = {
     "C01": {"prefixes": ["C01."], "assumptions": L3_ASSUME, "validate_samples": {"quick": 1, "thorough": 3},
             "runs": [bmc({"K": 4, "N": 4}, {"K": 5, "N": 4}, reach=["spawn.concurrent>1", "end"])]},
-    "C02": {"prefixes": ["C02."], "assumptions": L3_ASSUME, "validate_samples": {"quick": 1, "thorough": 3},
-            "runs": [bmc({"K": 4, "N": 4}, {"K": 5, "N": 4}, reach=["end"])]},
+    "C02": {"prefixes": ["C02."], "assumptions": L3_ASSUME + L2_ASSUME, "validate_samples": {"quick": 1, "thorough": 3},
+            "runs": [bmc({"K": 4, "N": 4}, {"K": 5, "N": 4}, reach=["end"]), L2RUN]},
     "C03": {"prefixes": ["C03."], "assumptions": L3_ASSUME, "validate_samples": {"quick": 1, "thorough": 3},
             "runs": [bmc({"K": 4, "N": 4}, {"K": 5, "N": 4}, reach=["state.waiting", "cancel.waiting"]),
                      bmc({"K": 4, "N": 3, "reloads": 1, "reservedvar": 0, "taskerr": 0}, {"K": 5, "N": 3, "reloads": 1, "taskerr": 0}, reach=["reload"])]},
-    "C04": {"prefixes": ["C04."], "assumptions": L3_ASSUME, "validate_samples": {"quick": 1, "thorough": 3},
-            "runs": [bmc({"K": 4, "N": 4}, {"K": 5, "N": 4}, reach=["cancel.waiting", "cancel.running", "cancel.already-canceled", "cancel.completed"])]},
+    "C04": {"prefixes": ["C04."], "assumptions": L3_ASSUME + L2_ASSUME, "validate_samples": {"quick": 1, "thorough": 3},
+            "runs": [bmc({"K": 4, "N": 4}, {"K": 5, "N": 4}, reach=["cancel.waiting", "cancel.running", "cancel.already-canceled", "cancel.completed"]), L2RUN]},
     "C05": {"prefixes": ["C05."], "assumptions": L3_ASSUME, "validate_samples": {"quick": 1, "thorough": 3},
             "runs": [bmc({"K": 4, "N": 4}, {"K": 5, "N": 4}, reach=["sched.start", "sched.append", "sched.replace", "sched.reject-full", "sched.reject-noqueue"])]},
     "C06": {"prefixes": ["C06."], "assumptions": L3_ASSUME, "validate_samples": {"quick": 1, "thorough": 3},
@@ -83,4 +98,6 @@ CHECKS = {
                             "declared happens-before exceptions: the scheduler goroutine reads its own job's sched/ID; fields set once in NewPipelineRunner (store, outputStore, persistRequests, createTaskRunner) are immutable (writes are reported)",
                             "state: built through the public API (finished, running and waiting jobs, retention configured); one operation per path"],
             "runs": [step("VerifC13Locks", reach=["op-done"])]},
+    "C08": {"prefixes": ["C08."], "assumptions": L3_ASSUME + L2_ASSUME, "validate_samples": {"quick": 1, "thorough": 2},
+            "runs": [L2RUN, bmc({"K": 4, "N": 3, "reservedvar": 0}, {"K": 5, "N": 3, "reservedvar": 0}, reach=["taskerr.failfast"])]},
 }
